@@ -24,7 +24,15 @@ Short2 == {<<Rec(1, k1, 10), Rec(a, k2, 10 + dt)>> : k1 \in Kinds, a \in {1, 2},
 ZKinds == {"ID", "S4", "APE"}
 Short0 == {<<Rec(1, k1, 0), Rec(1, k2, 1)>> : k1 \in Kinds, k2 \in ZKinds}
           \cup {<<Rec(1, k1, 0), Rec(2, k2, 0), Rec(1, k2, 2), Rec(2, k1, 3)>> : k1 \in Kinds, k2 \in ZKinds}
-ASSUME Mode = "short" => \A h \in Short1 \cup Short2 \cup Short0 : PrintT(ToJson([na |-> 2, h |-> h]))
+(* long silences (an aircraft heard again after more than an hour, a day): *)
+(* the count and the first-seen time of an entry survive any gap            *)
+ShortGap == {<<Rec(1, k1, 10), Rec(1, k2, 3611)>> : k1 \in Kinds, k2 \in ZKinds}
+            \cup {<<Rec(1, k1, 10), Rec(2, k2, 11), Rec(1, k2, 3700), Rec(2, k1, 90000), Rec(1, k1, 90001)>> : k1 \in Kinds, k2 \in ZKinds}
+(* aircraft 6 carries the all-zero address (engine: ADDR[6] = 000000), an   *)
+(* address like any other                                                   *)
+ShortZero == {<<Rec(6, k1, 10), Rec(1, k2, 11), Rec(6, k2, 12)>> : k1 \in Kinds, k2 \in ZKinds}
+ASSUME Mode = "short" => /\ \A h \in Short1 \cup Short2 \cup Short0 \cup ShortGap : PrintT(ToJson([na |-> 2, h |-> h]))
+                         /\ \A h \in ShortZero : PrintT(ToJson([na |-> 6, h |-> h]))
 
 (* GEN_MODE=hshort (constant level, for the history / REST-view part): every *)
 (*   history of at most two records over HKinds and the three-record         *)
@@ -43,7 +51,7 @@ ASSUME Mode = "hshort" => \A h \in HShort1 \cup HShort2 \cup HShort3 : \A f \in 
 
 (* random interleavings *)
 Lens == {3, 5, 8, 12, 16, 24, 32, 40}
-DtSeq == <<0, 1, 1, 2, 3, 5, 9, 12, 60, 200>>
+DtSeq == <<0, 1, 1, 2, 3, 5, 9, 12, 60, 200, 3601, 100000>>
 (* position kinds are drawn more often so that even/odd pairs occur *)
 KindBag == {<<k, 0>> : k \in Kinds} \cup {<<k, i>> : k \in PositionKinds, i \in 1..3}
 KindOf(x) == x[1]
